@@ -440,7 +440,7 @@ PAIRS = [
     dict(a="state::position::Position::reset_position_range", b=MP + "MemoryMappedPosition::reset_position_range", keys=("atoms", "returns"),
          exempt={r"^is_position_empty\(self(, keep_owed)?\) =>": "Pinocchio adds keep_owed (reposition keeps owed fees); with keep_owed=false both demand a fully empty position (pair below)"}),
     dict(a="state::position::Position::is_position_empty", b=MP + "MemoryMappedPosition::is_position_empty", na={"arg_map": {"position": "self"}},
-         keys=("atoms", "returns"),
+         keys=("atoms", "returns"), semantic="empty_definition",
          exempt={r"^keep_owed =>": "Pinocchio-only fast path for reposition: liquidity == 0 suffices when owed amounts are kept",
                  r"^\(0 Eq self\.liquidity\)$": "return value of that fast path"}),
     dict(a="manager::tick_array_manager::update_tick_array_accounts", b=PT + "pino_update_tick_array_accounts",
@@ -591,7 +591,57 @@ def _same_slot_search(a, b):
     return True
 
 
-SEMANTIC = {"slot_search": _same_slot_search, "search_range": _same_search_range, "inside_growth": _same_inside_growth_table, "floor_div": _same_floor_div}
+def _empty_model(fn):
+    """(fields compared with 0, whether every reward slot is covered, form) of an is_position_empty implementation."""
+    from analysis import atoms as A_
+    from analysis.match import const_val
+    from rules.common import arg_name
+    facts = fn.facts
+    pv = prov_of(fn)
+    fields, form, covered = set(), None, False
+    def zero_tests(term):
+        for s_ in subterms(term):
+            if s_[0] == "bin" and s_[1] == "Eq":
+                for (x, y) in ((s_[2], s_[3]), (s_[3], s_[2])):
+                    if const_val(y) == 0 and arg_name(x):
+                        yield arg_name(x)
+    for at in A_.atoms(fn):
+        fields |= set(zero_tests(at.term))
+    for bi, bb in enumerate(fn.blocks):
+        for si, st in enumerate(bb["s"]):
+            if st["k"] == "=" and st["rv"].get("bin") == "Eq":
+                fields |= set(zero_tests(("bin", "Eq", pv.operand(st["rv"]["a"], bi, si), pv.operand(st["rv"]["b"], bi, si))))
+    loops = any("next" in (callee_path(t) or "") for _, t in fn.calls())
+    bound = any(const_val(s_) == 3 or (s_[0] == "const" and s_[2] and s_[2].endswith("NUM_REWARDS")) for bi, t in fn.calls() for a in t["a"]
+                for s_ in subterms(pv.operand(a, bi, len(fn.blocks[bi]["s"]))))
+    if loops and bound:
+        form, covered = "loop", True
+    for bi, t in fn.calls():
+        if not any(n.endswith(("Iterator::all", "Iterator>::all")) for n in (t["f"].get("raw") or "", callee_path(t) or "")) or len(t["a"]) != 2:
+            continue
+        recv, clo = (pv.operand(a, bi, len(fn.blocks[bi]["s"])) for a in t["a"])
+        cl = [x for x in subterms(clo) if x[0] == "closure"]
+        cf = facts.fn(cl[0][1]) if len(cl) == 1 else None
+        if arg_name(recv) != "reward_infos" or cf is None:
+            continue
+        pc = prov_of(cf)
+        rets = [pc.local(0, b_, len(bb["s"])) for b_, bb in enumerate(cf.blocks) if bb["t"]["k"] == "ret"]
+        got = set(zero_tests(rets[0])) if len(rets) == 1 else set()
+        if got == {"amount_owed"} and strip(rets[0])[0] == "bin":
+            fields |= got
+            form, covered = "all", True
+    return frozenset(fields), covered, form
+
+
+def _same_empty_definition(a, b):
+    """Both sides are the conjunction liquidity == 0 && fee_owed_a == 0 && fee_owed_b == 0 && every reward's amount_owed == 0, one as an index
+    loop and the other as iter().all(..) (the Pinocchio-only keep_owed fast path is exempted by the pair itself)."""
+    ma, mb = _empty_model(a), _empty_model(b)
+    want = {"liquidity", "fee_owed_a", "fee_owed_b", "amount_owed"}
+    return ma[2] != mb[2] and ma[1] and mb[1] and ma[0] == mb[0] == want
+
+
+SEMANTIC = {"slot_search": _same_slot_search, "search_range": _same_search_range, "inside_growth": _same_inside_growth_table, "floor_div": _same_floor_div, "empty_definition": _same_empty_definition}
 
 
 def compare_pair(run, rule, a_path, b_path, keys=ALL, subs_b=(), exempt=(), subs_a=(), norm_a=None, norm_b=None, semantic=None):
